@@ -271,6 +271,11 @@ func checkC12(c *run.Ctx) {
 		for k, v := range perm {
 			mp[k] = v
 		}
+		if len(caseID)%3 == 0 {
+			// marshalled before it is interpolated (an agent may log the step first): observers change nothing
+			_, _ = safeJSONMarshal(step)
+			_, _ = safeYAMLMarshal(step)
+		}
 		var err error
 		if pi := run.Guard(func() { err = step.InterpolateMatrixPermutation(mp) }); pi != nil {
 			c.Violation(caseID, map[string]any{"what": "panic: " + pi.Value, "stack": pi.Stack, "permutation": perm})
